@@ -30,6 +30,27 @@
 //   vel                    mj_comVel -> cvel 6nb .. + mj_objectVelocity (world orientation and local) for every body
 //                          (mjOBJ_BODY, mjOBJ_XBODY), geom, site, camera: ob<b> 12, ox<b> 12, og<g> 12, os<s> 12, oc<c> 12
 //   jacdot b r0 r1 r2      mj_jacDot at the body-fixed point (needs `vel` first)     -> point 3 .. jacp 3nv .. jacr 3nv ..
+//                          + mj_jacDotSparse on mj_bodyChain(b): chain NV .. sjacp 3NV .. sjacr 3NV ..
+//   opt jacobian|cone k    m->opt.jacobian / m->opt.cone at run time (the engine reads both on every call)    -> ok
+//   efc full|pos           mj_fwdPosition on the current qpos / mocap pose, then the constraint rows the engine built:
+//                          -> efc sparse 1 counts 4 (ne nf nl ncon) warn 2 (contact-full constraint-full) type nefc .. id nefc ..
+//                             pos nefc .. margin nefc .. ten_length nt .. con_geom 2ncon .. con_dim ncon .. con_efc ncon ..
+//                             con_exclude ncon .. con_dist ncon ..
+//                          full adds: J nefc*nv (efc_J, scattered to dense when sparse) rownnz nefc .. colind nJ .. (sparse)
+//                             ten_J nt*nv (scattered) con_frame 9ncon con_pos 3ncon con_friction 5ncon con_margin ncon and
+//                             per contact cj<i> 12nv = mj_jac at contact.pos for the body of geom1 (jacp, jacr), of geom2 (jacp, jacr)
+//   jacdif b1 b2 r1(3) r2(3) same sparse skip
+//                          mj_jacDifPair(b1, b2, p1, p2, .., issparse = sparse, flg_skipcommon = skip), p_i = world position of
+//                          the point r_i fixed to body b_i (p2 := p1 when same = 1); reference mj_jac of both points
+//                          -> NV 1 .. chain NV .. difp 3NV .. difr 3NV .. a1p a1r a2p a2r 3nv each (mj_jac) mchain n .. (mj_mergeChain
+//                             with the same flag) simple 1 ..
+//   chain b1 b2 skip       mj_mergeChain(b1, b2, flg_skipcommon = skip)
+//                          -> CHAIN body_weldid nb .. body_dofnum nb .. body_dofadr nb .. dof_parentid nv .. b1 1 .. b2 1 .. skip 1 .. -> NV c1 .. cNV
+//                          (left of "->" is the op line of lean/Drivers/C07.lean)
+//   jacsum n (b w)*n bp r(3) rot
+//                          mj_jacSum of the n bodies with weights w at the world position of r fixed to body bp (dense or
+//                          sparse by the current opt.jacobian) -> NV 1 .. chain .. sump 3NV .. sumr 3NV .. and a<i>p a<i>r (mj_jac)
+//   jacaxis b r(3) a(3)    mj_jacPointAxis at the body-fixed point with world axis a -> jp 3nv .. ja 3nv .. refp 3nv .. refr 3nv ..
 #define _GNU_SOURCE
 #include <math.h>
 #include <setjmp.h>
@@ -41,6 +62,8 @@
 #include "mjbuild.h"
 #include "engine/engine_core_smooth.h"
 #include "engine/engine_core_util.h"
+#include "engine/engine_core_constraint.h"
+#include "engine/engine_forward.h"
 #include "engine/engine_support.h"
 
 static mjModel* m = NULL;
@@ -236,6 +259,10 @@ int main(void) {
       pbvec("body_sameframe", m->body_sameframe, nb);
       pvec("body_ipos", m->body_ipos, 3 * nb); pvec("geom_pos", m->geom_pos, 3 * (int)m->ngeom);
       pvec("site_pos", m->site_pos, 3 * (int)m->nsite); pvec("cam_pos", m->cam_pos, 3 * (int)m->ncam);
+      pivec("geom_type", m->geom_type, (int)m->ngeom); pbvec("body_simple", m->body_simple, nb);
+      pivec("eq_type", m->eq_type, (int)m->neq); pivec("eq_objtype", m->eq_objtype, (int)m->neq);
+      pivec("eq_obj1id", m->eq_obj1id, (int)m->neq); pivec("eq_obj2id", m->eq_obj2id, (int)m->neq);
+      pvec("jnt_range", m->jnt_range, 2 * nj); pvec("tendon_range", m->tendon_range, 2 * (int)m->ntendon);
       printf("\n");
     } else if (!strcmp(op, "com") && n == 1) {
       printf("com"); pvec("subtree_com", d->subtree_com, 3 * nb); pvec("cdof", d->cdof, 6 * nv); printf("\n");
@@ -271,7 +298,16 @@ int main(void) {
         double* jp = buf(3 * nv); double* jr = buf(3 * nv);
         mj_local2Global(d, p, NULL, r, NULL, b, 0);
         if (!strcmp(op, "jacpt")) mj_jac(m, d, jp, jr, p, b); else mj_jacDot(m, d, jp, jr, p, b);
-        printf("%s", op); pvec("point", p, 3); pvec("jacp", jp, 3 * nv); pvec("jacr", jr, 3 * nv); printf("\n");
+        printf("%s", op); pvec("point", p, 3); pvec("jacp", jp, 3 * nv); pvec("jacr", jr, 3 * nv);
+        if (!strcmp(op, "jacdot")) {
+          int* chain = (int*)calloc(nv + 1, sizeof(int));
+          int NV = mj_bodyChain(m, b, chain);
+          double* sp = buf(3 * NV); double* sr = buf(3 * NV);
+          if (NV > 0) mj_jacDotSparse(m, d, sp, sr, p, b, NV, chain);
+          pivec("chain", chain, NV); pvec("sjacp", sp, 3 * NV); pvec("sjacr", sr, 3 * NV);
+          free(chain); free(sp); free(sr);
+        }
+        printf("\n");
         free(jp); free(jr);
       }
     } else if (!strcmp(op, "jacsparse") && n == 2) {
@@ -293,6 +329,144 @@ int main(void) {
       for (int s = 0; s < m->nsite; s++) pobjvel("os", mjOBJ_SITE, s);
       for (int c = 0; c < m->ncam; c++) pobjvel("oc", mjOBJ_CAMERA, c);
       printf("\n");
+    } else if (!strcmp(op, "opt") && n == 3) {
+      int k = atoi(tok[2]);
+      if (!strcmp(tok[1], "jacobian") && k >= 0 && k <= 2) { m->opt.jacobian = k; printf("ok\n"); }
+      else if (!strcmp(tok[1], "cone") && k >= 0 && k <= 1) { m->opt.cone = k; printf("ok\n"); }
+      else printf("bad-op\n");
+    } else if (!strcmp(op, "efc") && n == 2 && (!strcmp(tok[1], "full") || !strcmp(tok[1], "pos"))) {
+      int full = !strcmp(tok[1], "full");
+      int w0 = d->warning[mjWARN_CONTACTFULL].number, w1 = d->warning[mjWARN_CNSTRFULL].number;
+      mj_fwdPosition(m, d);
+      int nefc = d->nefc, ncon = d->ncon, nt = (int)m->ntendon, sp = mj_isSparse(m);
+      int counts[4] = {d->ne, d->nf, d->nl, ncon};
+      int warn[2] = {d->warning[mjWARN_CONTACTFULL].number - w0, d->warning[mjWARN_CNSTRFULL].number - w1};
+      printf("efc"); pivec("sparse", &sp, 1); pivec("counts", counts, 4); pivec("warn", warn, 2);
+      pivec("type", d->efc_type, nefc); pivec("id", d->efc_id, nefc);
+      pvec("pos", d->efc_pos, nefc); pvec("margin", d->efc_margin, nefc); pvec("ten_length", d->ten_length, nt);
+      int* ci = (int*)calloc(8 * (ncon + 1), sizeof(int)); double* cd = buf(ncon);
+      for (int i = 0; i < ncon; i++) {
+        ci[2 * i] = d->contact[i].geom[0]; ci[2 * i + 1] = d->contact[i].geom[1];
+        ci[2 * ncon + i] = d->contact[i].dim; ci[3 * ncon + i] = d->contact[i].efc_address;
+        ci[4 * ncon + i] = d->contact[i].exclude; cd[i] = d->contact[i].dist;
+      }
+      pivec("con_geom", ci, 2 * ncon); pivec("con_dim", ci + 2 * ncon, ncon); pivec("con_efc", ci + 3 * ncon, ncon);
+      pivec("con_exclude", ci + 4 * ncon, ncon); pvec("con_dist", cd, ncon);
+      free(ci); free(cd);
+      if (full) {
+        double* J = buf(nefc * nv);
+        if (sp) {
+          int nJ = 0;
+          for (int r = 0; r < nefc; r++) {
+            int adr = d->efc_J_rowadr[r];
+            for (int k = 0; k < d->efc_J_rownnz[r]; k++) {
+              int c = d->efc_J_colind[adr + k];
+              if (c >= 0 && c < nv) J[r * nv + c] += d->efc_J[adr + k];      // += : a repeated column would show up
+            }
+            if (adr + d->efc_J_rownnz[r] > nJ) nJ = adr + d->efc_J_rownnz[r];
+          }
+          pvec("J", J, nefc * nv); pivec("rownnz", d->efc_J_rownnz, nefc); pivec("rowadr", d->efc_J_rowadr, nefc);
+          pivec("colind", d->efc_J_colind, nJ); pivec("nJ", &d->nJ, 1);
+        } else {
+          memcpy(J, d->efc_J, sizeof(double) * (size_t)nefc * nv);
+          pvec("J", J, nefc * nv);
+        }
+        free(J);
+        double* TJ = buf(nt * nv);
+        for (int t = 0; t < nt; t++) {
+          int adr = m->ten_J_rowadr[t];
+          for (int k = 0; k < m->ten_J_rownnz[t]; k++) TJ[t * nv + m->ten_J_colind[adr + k]] += d->ten_J[adr + k];
+        }
+        pvec("ten_J", TJ, nt * nv); free(TJ);
+        double* cf = buf(18 * (ncon + 1));
+        for (int i = 0; i < ncon; i++) {
+          memcpy(cf + 9 * i, d->contact[i].frame, 9 * sizeof(double));
+          memcpy(cf + 9 * ncon + 3 * i, d->contact[i].pos, 3 * sizeof(double));
+          memcpy(cf + 12 * ncon + 5 * i, d->contact[i].friction, 5 * sizeof(double));
+          cf[17 * ncon + i] = d->contact[i].includemargin;
+        }
+        pvec("con_frame", cf, 9 * ncon); pvec("con_pos", cf + 9 * ncon, 3 * ncon);
+        pvec("con_friction", cf + 12 * ncon, 5 * ncon); pvec("con_margin", cf + 17 * ncon, ncon);
+        free(cf);
+        double* cj = buf(12 * nv);
+        for (int i = 0; i < ncon; i++) {
+          int g0 = d->contact[i].geom[0], g1 = d->contact[i].geom[1];
+          if (g0 < 0 || g1 < 0) continue;
+          mj_jac(m, d, cj, cj + 3 * nv, d->contact[i].pos, m->geom_bodyid[g0]);
+          mj_jac(m, d, cj + 6 * nv, cj + 9 * nv, d->contact[i].pos, m->geom_bodyid[g1]);
+          pjac("cj", i, "", cj, 12 * nv);
+        }
+        free(cj);
+      }
+      printf("\n");
+    } else if (!strcmp(op, "jacdif") && n == 12) {
+      int b1 = atoi(tok[1]), b2 = atoi(tok[2]), same = atoi(tok[9]), sp = atoi(tok[10]), skip = atoi(tok[11]);
+      double r1[3], r2[3], p1[3], p2[3];
+      if (b1 < 0 || b1 >= nb || b2 < 0 || b2 >= nb || b1 == b2 || !getv(tok + 3, 3, r1) || !getv(tok + 6, 3, r2) ||
+          (sp | 1) != 1 || (skip | 1) != 1 || (same | 1) != 1) printf("bad-op\n");
+      else {
+        mj_local2Global(d, p1, NULL, r1, NULL, b1, 0);
+        mj_local2Global(d, p2, NULL, r2, NULL, b2, 0);
+        if (same) memcpy(p2, p1, sizeof p1);
+        int* chain = (int*)calloc(2 * nv + 2, sizeof(int)); int* mchain = chain + nv + 1;
+        double* w = buf(18 * nv); double* a = buf(12 * nv);
+        int NV = mj_jacDifPair(m, d, chain, b1, b2, p1, p2, w, w + 3 * nv, w + 6 * nv, w + 9 * nv, w + 12 * nv, w + 15 * nv, sp, skip);
+        int simple = m->body_simple[b1] && m->body_simple[b2];
+        int MV = simple ? mj_mergeChainSimple(m, mchain, b1, b2) : mj_mergeChain(m, mchain, b1, b2, skip);
+        mj_jac(m, d, a, a + 3 * nv, p1, b1); mj_jac(m, d, a + 6 * nv, a + 9 * nv, p2, b2);
+        printf("jacdif"); pivec("NV", &NV, 1); pivec("chain", chain, sp ? NV : 0);
+        pvec("difp", w + 6 * nv, 3 * NV); pvec("difr", w + 15 * nv, 3 * NV);
+        pvec("a1p", a, 3 * nv); pvec("a1r", a + 3 * nv, 3 * nv); pvec("a2p", a + 6 * nv, 3 * nv); pvec("a2r", a + 9 * nv, 3 * nv);
+        pivec("mchain", mchain, MV); pivec("simple", &simple, 1); printf("\n");
+        free(chain); free(w); free(a);
+      }
+    } else if (!strcmp(op, "chain") && n == 4) {
+      int b1 = atoi(tok[1]), b2 = atoi(tok[2]), skip = atoi(tok[3]);
+      if (b1 < 0 || b1 >= nb || b2 < 0 || b2 >= nb || (skip | 1) != 1) printf("bad-op\n");
+      else {
+        int* chain = (int*)calloc(2 * nv + 2, sizeof(int));
+        printf("CHAIN"); pivec("body_weldid", m->body_weldid, nb); pivec("body_dofnum", m->body_dofnum, nb);
+        pivec("body_dofadr", m->body_dofadr, nb); pivec("dof_parentid", m->dof_parentid, nv);
+        pivec("b1", &b1, 1); pivec("b2", &b2, 1); pivec("skip", &skip, 1);
+        int NV = mj_mergeChain(m, chain, b1, b2, skip);
+        printf(" -> %d", NV); for (int i = 0; i < NV; i++) printf(" %d", chain[i]); printf("\n");
+        free(chain);
+      }
+    } else if (!strcmp(op, "jacsum") && n >= 2 && atoi(tok[1]) >= 1 && atoi(tok[1]) <= 16 && n == 2 + 2 * atoi(tok[1]) + 5) {
+      int k = atoi(tok[1]); int bid[16]; double wt[16]; int ok = 1;
+      for (int i = 0; i < k && ok; i++) {
+        bid[i] = atoi(tok[2 + 2 * i]);
+        if (bid[i] < 0 || bid[i] >= nb || !getf(tok[3 + 2 * i], &wt[i])) ok = 0;
+      }
+      int bp = atoi(tok[2 + 2 * k]), rot = atoi(tok[n - 1]); double r[3], p[3];
+      if (!ok || bp < 0 || bp >= nb || !getv(tok + 3 + 2 * k, 3, r) || (rot | 1) != 1) printf("bad-op\n");
+      else {
+        mj_local2Global(d, p, NULL, r, NULL, bp, 0);
+        int* chain = (int*)calloc(nv + 1, sizeof(int));
+        double* sp_ = buf(3 * nv); double* sr_ = buf(3 * nv); double* a = buf(6 * nv);
+        int sp = mj_isSparse(m);
+        int NV = mj_jacSum(m, d, chain, k, bid, wt, p, sp_, sr_, rot);
+        printf("jacsum"); pivec("NV", &NV, 1); pivec("sparse", &sp, 1); pivec("chain", chain, sp ? NV : 0);
+        pvec("sump", sp_, 3 * NV); pvec("sumr", sr_, rot ? 3 * NV : 0);
+        for (int i = 0; i < k; i++) {
+          mj_jac(m, d, a, a + 3 * nv, p, bid[i]);
+          pjac("a", i, "p", a, 3 * nv); pjac("a", i, "r", a + 3 * nv, 3 * nv);
+        }
+        printf("\n");
+        free(chain); free(sp_); free(sr_); free(a);
+      }
+    } else if (!strcmp(op, "jacaxis") && n == 8) {
+      int b = atoi(tok[1]); double r[3], ax[3], p[3];
+      if (b < 0 || b >= nb || !getv(tok + 2, 3, r) || !getv(tok + 5, 3, ax)) printf("bad-op\n");
+      else {
+        mj_local2Global(d, p, NULL, r, NULL, b, 0);
+        double* j = buf(12 * nv);
+        mj_jacPointAxis(m, d, j, j + 3 * nv, p, ax, b);
+        mj_jac(m, d, j + 6 * nv, j + 9 * nv, p, b);
+        printf("jacaxis"); pvec("jp", j, 3 * nv); pvec("ja", j + 3 * nv, 3 * nv); pvec("refp", j + 6 * nv, 3 * nv);
+        pvec("refr", j + 9 * nv, 3 * nv); printf("\n");
+        free(j);
+      }
     } else {
       printf("bad-op\n");
     }
